@@ -14,6 +14,7 @@ const PLACEMENTS: &[&str] = &[
     "none", "abicoder-before", "experimental-before", "abicoder-after", "both-sides", "experimental-after-contract",
     // comments written inside the directive (for this lexer part of the pragma value): versions named there do not count
     "comment-in-front-of-version", "comment-behind-version-low", "comment-behind-version-high", "line-comment-behind-version",
+    "slash-star-slash-comment-behind-version",
 ];
 
 fn template(v: (u64, u64, u64), spelling: &str, placement: &str, using_level: u8) -> String {
@@ -22,6 +23,7 @@ fn template(v: (u64, u64, u64), spelling: &str, placement: &str, using_level: u8
         "comment-in-front-of-version" => format!("pragma solidity /* was 0.7.6 , soon 0.9.1 */ {}{}.{}.{} ;\n", spelling, v.0, v.1, v.2),
         "comment-behind-version-low" => format!("pragma solidity {}{}.{}.{} /* was 0.7.6 */ ;\n", spelling, v.0, v.1, v.2),
         "comment-behind-version-high" => format!("pragma solidity {}{}.{}.{} /* until 0.9.1 */ ;\n", spelling, v.0, v.1, v.2),
+        "slash-star-slash-comment-behind-version" => format!("pragma solidity {}{}.{}.{} /*/ was 0.7.0 , soon 0.9.1 */ ;\n", spelling, v.0, v.1, v.2),
         "line-comment-behind-version" => format!("pragma solidity {}{}.{}.{} // 0.7.0 or 0.9.0\n ;\n", spelling, v.0, v.1, v.2),
         _ => format!("pragma solidity {}{}.{}.{} ;\n", spelling, v.0, v.1, v.2),
     };
